@@ -8,6 +8,7 @@ import (
 
 	"verifharness/fw"
 	"verifharness/gen"
+	"verifharness/mon"
 )
 
 // C03 — literal text, comments and verbatim sections are rendered faithfully.
@@ -26,7 +27,19 @@ func (p *c03) Init(tier string, seed int64) {
 	p.n = p.pick(20000, 600000)
 }
 
-func (p *c03) N() int { return p.n }
+func (p *c03) N() int { return p.n + len(c03Dup) }
+
+// c03Dup: one template that defines a block name twice. Whether that is a template at all is for the parser to
+// say (Twig refuses it); if it is, its text is emitted like any other text: once, in source order.
+var c03Dup = [][2]string{
+	{"A{% block a %}X{% endblock %}-{% block a %}Y{% endblock %}Z", "AX-YZ"},
+	{"{% block a %}X{% endblock %}{% block a %}Y{% endblock %}", "XY"},
+	{"A{% block a %}X{% block a %}Y{% endblock %}W{% endblock %}Z", "AXYWZ"},
+	{"{% block a %}1{% endblock %}{% block b %}2{% endblock %}{% block a %}3{% endblock %}{% block b %}4{% endblock %}", "1234"},
+	{"{% if true %}{% block a %}X{% endblock %}{% endif %}|{% for i in [1] %}{% block a %}Y{% endblock %}{% endfor %}", "X|Y"},
+	{"{% block a %}X{% endblock %}{% set c %}{% block a %}Y{% endblock %}{% endset %}[{{ c }}]", "X[Y]"},
+	{"{% block a %}X{% endblock %}\n{% block a %}{% endblock %}", "X\n"},
+}
 
 var c03Pieces = []string{
 	"a", "Hello", " ", "  ", "\n", "\r\n", "\t", "é", "中文", "😀", "ß", "{", "}", "%", "#", "}}", "%}", "#}", "'", "\"", "<b>", "&amp;", "\\", "|", "-", "{ {", "} }", "% }", "{ %", "{ #",
@@ -270,6 +283,9 @@ func (p *c03) build(i int) (*Program, *c03gen) {
 }
 
 func (p *c03) Describe(i int) interface{} {
+	if i >= p.n {
+		return map[string]interface{}{"template": c03Dup[i-p.n][0], "kind": "a block name defined twice in one template"}
+	}
 	prog, _ := p.build(i)
 	d := prog.describe()
 	pol := "canonical"
@@ -282,6 +298,19 @@ func (p *c03) Describe(i int) interface{} {
 }
 
 func (p *c03) Run(i int) (res fw.Result) {
+	if i >= p.n {
+		d := c03Dup[i-p.n]
+		env, _ := mon.NewCoreEnv(map[string]string{"main": d[0]})
+		out, err, pan, _ := execNoPanic(env, "main", nil, 0)
+		res.UniqueNT = 1
+		res.AddClass("duplicate-block/" + okOrErr(err))
+		if pan != nil {
+			res.Fail("panic", "c03:dup:"+d[0], fmt.Sprintf("%q panicked: %v", d[0], pan), nil)
+		} else if err == nil && out != d[1] {
+			res.Fail("output", "c03:dup:"+d[0], fmt.Sprintf("%q is accepted and renders %q: its text in source order is %q", d[0], out, d[1]), nil)
+		}
+		return
+	}
 	prog, g := p.build(i)
 	mod, _, inRegion, why := runModel(prog)
 	if !inRegion {
@@ -312,7 +341,7 @@ func (p *c03) Run(i int) (res fw.Result) {
 }
 
 func (p *c03) Rule() string {
-	return "cases: seeded structure trees whose leaves are mostly literal chunks (ASCII, 2/3/4-byte UTF-8, LF/CRLF/TAB, lone { } % #, closing delimiters }} %} #} -}} , quotes, U+2028, DEL; never forming an opening delimiter; a lone { also as the very last byte of the template) interleaved with prints of literals, variables named like tag keywords (verbatim, endverbatim, if, block, ...) printed, assigned, assigned from and used as conditions, block() calls on completed blocks (printed, assigned, concatenated), comments (multi-line, containing {{ / {% / #), verbatim bodies (containing prints, tags, comments, unclosed quotes, lone delimiters, a nested verbatim opener) and nested inside if/elseif/else, for/else, block, set-capture (printed afterwards), filter sections (bracket filters) and macro bodies to depth 4; every 10th case is a delimiter-free text that must render to itself; odd cases are spelled without blanks inside delimiters ({%if x%}), even cases canonically. Oracle: byte-exact equality with the reference model's output. Non-trivial = >=2 chunks inside nested bodies (or a delimiter-free text); distinct = construct path and alphabet class of every chunk."
+	return "cases: seeded structure trees whose leaves are mostly literal chunks (ASCII, 2/3/4-byte UTF-8, LF/CRLF/TAB, lone { } % #, closing delimiters }} %} #} -}} , quotes, U+2028, DEL; never forming an opening delimiter; a lone { also as the very last byte of the template) interleaved with prints of literals, variables named like tag keywords (verbatim, endverbatim, if, block, ...) printed, assigned, assigned from and used as conditions, block() calls on completed blocks (printed, assigned, concatenated), comments (multi-line, containing {{ / {% / #), verbatim bodies (containing prints, tags, comments, unclosed quotes, lone delimiters, a nested verbatim opener) and nested inside if/elseif/else, for/else, block, set-capture (printed afterwards), filter sections (bracket filters) and macro bodies to depth 4; every 10th case is a delimiter-free text that must render to itself; odd cases are spelled without blanks inside delimiters ({%if x%}), even cases canonically. Oracle: byte-exact equality with the reference model's output. Plus 7 templates that define a block name twice: refused, or rendered with every text run once and in order. Non-trivial = >=2 chunks inside nested bodies (or a delimiter-free text); distinct = construct path and alphabet class of every chunk."
 }
 
 func (p *c03) Assumptions() []string {
